@@ -1,3 +1,4 @@
 import GinjaxVerif.Properties.C02
+import GinjaxVerif.Properties.C05
 import GinjaxVerif.Properties.C16
 import GinjaxVerif.Properties.C19
